@@ -68,7 +68,7 @@ fn counter_value(r: &mut Rng) -> u64 {
 }
 
 fn dr_value(r: &mut Rng) -> u128 {
-    *r.pick(&[0u128, 1, 2, 3, 4, 4, 5, 6, 6, 7, 8, 9, 10, 10])
+    *r.pick(&[0u128, 1, 2, 3, 4, 4, 5, 6, 6, 7, 8, 9, 10, 10, 11, 12, 16, 20])
 }
 
 fn state_class(d: &[u32; 4]) -> [u64; 3] {
